@@ -96,11 +96,6 @@ Definition fn_of_decl (d : decl) : option fn :=
     if forallb (fun x => noneb (a_default x)) a then Some (t, n, map (fun x => (a_ty x, a_name x)) a) else None
   | _ => None
   end.
-Fixpoint fns_of (ds : list decl) : option (list fn) :=
-  match ds with
-  | [] => Some []
-  | d :: r => match fn_of_decl d, fns_of r with Some x, Some xs => Some (x :: xs) | _, _ => None end
-  end.
 
 Lemma decl_of_fn : forall d x, fn_of_decl d = Some x -> decl_of x = d.
 Proof.
@@ -110,24 +105,89 @@ Proof.
   clear H. induction a as [|[ta na da] a IH]; [reflexivity|]. cbn [forallb] in F. apply andb_true_iff in F. destruct F as [F1 F2].
   cbn [a_default] in F1. destruct da; [discriminate|]. cbn [map]. rewrite (IH F2). reflexivity.
 Qed.
-Lemma decls_of_fns : forall ds fns, fns_of ds = Some fns -> map decl_of fns = ds.
+
+(* declaration trees of the fragment: functions, and namespaces of such *)
+Fixpoint item_of_decl (d : decl) : option item :=
+  match d with
+  | DNamespace n ds =>
+    match (fix go (l : list decl) : option (list item) :=
+             match l with
+             | [] => Some []
+             | x :: r => match item_of_decl x, go r with Some a, Some b => Some (a :: b) | _, _ => None end
+             end) ds with
+    | Some b => Some (INs n b)
+    | None => None
+    end
+  | _ => match fn_of_decl d with Some x => Some (IFn x) | None => None end
+  end.
+Fixpoint items_of_decls (l : list decl) : option (list item) :=
+  match l with
+  | [] => Some []
+  | x :: r => match item_of_decl x, items_of_decls r with Some a, Some b => Some (a :: b) | _, _ => None end
+  end.
+
+Lemma items_of_decls_go : forall ds,
+  (fix go (l : list decl) : option (list item) :=
+     match l with
+     | [] => Some []
+     | x :: r => match item_of_decl x, go r with Some a, Some b => Some (a :: b) | _, _ => None end
+     end) ds = items_of_decls ds.
+Proof. induction ds as [|d ds IH]; [reflexivity|]. cbn [items_of_decls]. rewrite <- IH. reflexivity. Qed.
+
+Lemma item_of_ns : forall n ds, item_of_decl (DNamespace n ds) = match items_of_decls ds with Some b => Some (INs n b) | None => None end.
+Proof. intros n ds. cbn [item_of_decl]. rewrite items_of_decls_go. reflexivity. Qed.
+
+Lemma idecl_item : forall k i, idepth i < k -> forall d, item_of_decl d = Some i -> idecl i = d.
 Proof.
-  induction ds as [|d ds IH]; intros fns H; cbn [fns_of] in H; [inversion H; reflexivity|].
-  destruct (fn_of_decl d) as [x|] eqn:E; [|discriminate]. destruct (fns_of ds) as [xs|] eqn:E2; [|discriminate].
-  inversion H; subst fns. cbn [map]. rewrite (decl_of_fn d x E), (IH xs eq_refl). reflexivity.
+  induction k as [|k IH]; intros i Hd d H; [lia|].
+  destruct d as [c|f|tg nn|fw|inc|e|v|n ds];
+    try (cbn [item_of_decl] in H; match type of H with match ?o with _ => _ end = _ => destruct o as [x|] eqn:E end;
+         [inversion H; subst i; cbn [idecl]; apply decl_of_fn; exact E | discriminate]).
+  rewrite item_of_ns in H. destruct (items_of_decls ds) as [b|] eqn:E; [|discriminate]. inversion H; subst i. cbn [idecl]. f_equal.
+  cbn [idepth] in Hd.
+  assert (Hb : forall j, In j b -> idepth j < k) by (intros j Hj; pose proof (idepth_ge b j Hj); lia).
+  clear H Hd. revert b E Hb. induction ds as [|d ds IHd]; intros b E Hb; cbn [items_of_decls] in E.
+  - inversion E. reflexivity.
+  - destruct (item_of_decl d) as [a|] eqn:Ea; [|discriminate]. destruct (items_of_decls ds) as [b'|] eqn:Eb; [|discriminate].
+    inversion E; subst b. cbn [map]. rewrite (IH a (Hb a (or_introl eq_refl)) d Ea).
+    rewrite (IHd b' eq_refl (fun j Hj => Hb j (or_intror Hj))). reflexivity.
+Qed.
+
+Lemma idecls_items : forall ds items, items_of_decls ds = Some items -> map idecl items = ds.
+Proof.
+  induction ds as [|d ds IH]; intros items H; cbn [items_of_decls] in H; [inversion H; reflexivity|].
+  destruct (item_of_decl d) as [a|] eqn:Ea; [|discriminate]. destruct (items_of_decls ds) as [b|] eqn:Eb; [|discriminate].
+  inversion H; subst items. cbn [map]. rewrite (idecl_item (S (idepth a)) a (Nat.lt_succ_diag_r _) d Ea), (IH b eq_refl). reflexivity.
+Qed.
+
+Fixpoint wf_itemb (i : item) : bool :=
+  match i with
+  | IFn x => wf_fnb x
+  | INs n b => is_ident (chars_of n) && forallb wf_itemb b
+  end.
+Lemma wf_itemb_ok : forall k i, idepth i < k -> wf_itemb i = true -> wf_item i.
+Proof.
+  induction k as [|k IH]; intros i Hd H; [lia|]. destruct i as [x|n b]; cbn [wf_itemb wf_item] in *.
+  - apply wf_fnb_ok. exact H.
+  - apply andb_true_iff in H. destruct H as [H1 H2]. split; [exact H1|]. cbn [idepth] in Hd.
+    assert (Hb : forall j, In j b -> wf_item j).
+    { intros j Hj. apply IH; [pose proof (idepth_ge b j Hj); lia | rewrite forallb_forall in H2; apply H2; exact Hj]. }
+    clear - Hb. induction b as [|x r IHr]; [exact I|]. split; [apply Hb; left; reflexivity|]. apply IHr. intros j Hj. apply Hb. right. exact Hj.
 Qed.
 
 (* the model's answer for a declaration list: its text when the list is in the domain of the theorem *)
+Definition in_domain (i : item) : bool := Nat.ltb (idepth i) depth_fuel && wf_itemb i.
 Definition print_decls (ds : list decl) : option string :=
-  match fns_of ds with
-  | Some fns => if forallb wf_fnb fns then Some (print_module fns) else None
+  match items_of_decls ds with
+  | Some items => if forallb in_domain items then Some (print_items items) else None
   | None => None
   end.
 
 Theorem printed_decls_parse_back : forall ds text, print_decls ds = Some text -> parse_module spec_grammar text = Ok ds.
 Proof.
-  intros ds text H. unfold print_decls in H. destruct (fns_of ds) as [fns|] eqn:E; [|discriminate].
-  destruct (forallb wf_fnb fns) eqn:W; [|discriminate]. inversion H; subst text.
-  rewrite <- (decls_of_fns ds fns E). apply module_roundtrip. apply Forall_forall. intros x Hx. apply wf_fnb_ok.
-  rewrite forallb_forall in W. apply W. exact Hx.
+  intros ds text H. unfold print_decls in H. destruct (items_of_decls ds) as [items|] eqn:E; [|discriminate].
+  destruct (forallb in_domain items) eqn:W; [|discriminate]. inversion H; subst text.
+  rewrite <- (idecls_items ds items E). apply items_roundtrip. intros i Hi. rewrite forallb_forall in W. specialize (W i Hi).
+  unfold in_domain in W. apply andb_true_iff in W. destruct W as [W1 W2]. apply Nat.ltb_lt in W1.
+  split; [exact W1 | apply (wf_itemb_ok _ i W1 W2)].
 Qed.
